@@ -49,10 +49,27 @@ Qed.
 
 Lemma consume_ok : forall h s s', store_ok s -> consume h s = Ok s' -> store_ok s'.
 Proof.
-  intros h s s' [Hnd Hlt] H. destruct (consume_perm _ _ _ H) as (HP & Hn & _).
-  split.
+  intros h s s' (Hnd & Hlt & Hc & Hcp & Hmg & Hop) H. destruct (consume_perm _ _ _ H) as (HP & Hn & _).
+  unfold consume in H. destruct (memb h (s_open s)) eqn:E; [|discriminate]. inversion H; subst s'; clear H. simpl in *.
+  assert (Hsub : forall x, In x (remove_one h (s_open s)) -> In x (s_open s)).
+  { intros x Hx. eapply Permutation_in; [symmetry; exact HP|now right]. }
+  split; [|split].
   - eapply Permutation_NoDup in Hnd; [|exact HP]. now inversion Hnd.
-  - intros x Hx. rewrite Hn. apply Hlt. eapply Permutation_in; [symmetry; exact HP|now right].
+  - intros x Hx. apply Hlt. now apply Hsub.
+  - unfold hist_ok. simpl. split; [|split; [|split]].
+    + intros x Hx.
+      assert (Hcr : created (s_hist s) x).
+      { destruct Hx as [[E'|Hx]|[(p & cs & [E'|Hp] & Hx)|(hs & [E'|Hm])]]; try discriminate.
+        - now left.
+        - right. left. eauto.
+        - right. right. eauto. }
+      destruct (Hc x Hcr) as [Hl [Ho|Hr]]; split; auto.
+      * destruct (N.eq_dec x h) as [->|Hne]; [right; left; now left|].
+        left. now apply remove_one_in_other_h.
+      * right. now apply retired_cons.
+    + intros p cs [E'|Hp] c Hcin; [discriminate|]. eapply Hcp; eauto.
+    + intros ms h' [E'|Hm] x Hx; [discriminate|]. eapply Hmg; eauto.
+    + intros x Hx. apply created_cons. apply Hop. now apply Hsub.
 Qed.
 
 Lemma consume_all_perm : forall hs s s', consume_all hs s = Ok s' ->
@@ -76,10 +93,22 @@ Lemma fresh_spec : forall s h s', fresh s = (h, s') ->
   s_open s' = s_open s ++ [h] /\ (store_ok s -> store_ok s' /\ ~ In h (s_open s)).
 Proof.
   unfold fresh. intros s h s' H. inversion H; subst; clear H. simpl. split; [reflexivity|].
-  intros [Hnd Hlt]. split; [split|]; simpl.
+  intros (Hnd & Hlt & Hc & Hcp & Hmg & Hop). split; [split; [|split]|]; simpl.
   - apply NoDup_app_intro; [exact Hnd|repeat constructor; intros []|].
     intros x Hx [<-|[]]. apply Hlt in Hx. lia.
   - intros x Hx. apply in_app_or in Hx as [Hx|[<-|[]]]; [apply Hlt in Hx|]; lia.
+  - unfold hist_ok. simpl. split; [|split; [|split]].
+    + intros x Hx.
+      destruct Hx as [[E'|Hx]|[(p & cs & [E'|Hp] & Hx)|(hs & [E'|Hm])]]; try discriminate.
+      * inversion E'; subst x. split; [lia|]. left. apply in_or_app. right. now left.
+      * destruct (Hc x (or_introl Hx)) as [Hl [Ho|Hr]]; split; try lia; [left; apply in_or_app; now left|right; now apply retired_cons].
+      * assert (Hcr : created (s_hist s) x) by (right; left; eauto).
+        destruct (Hc x Hcr) as [Hl [Ho|Hr]]; split; try lia; [left; apply in_or_app; now left|right; now apply retired_cons].
+      * assert (Hcr : created (s_hist s) x) by (right; right; eauto).
+        destruct (Hc x Hcr) as [Hl [Ho|Hr]]; split; try lia; [left; apply in_or_app; now left|right; now apply retired_cons].
+    + intros p cs [E'|Hp] c Hcin; [discriminate|]. eapply Hcp; eauto.
+    + intros ms h' [E'|Hm] x Hx; [discriminate|]. eapply Hmg; eauto.
+    + intros x Hx. apply in_app_or in Hx as [Hx|[<-|[]]]; [apply created_cons; now apply Hop|left; now left].
   - intros Hin. apply Hlt in Hin. lia.
 Qed.
 
@@ -173,6 +202,74 @@ Proof.
   - intros He. rewrite He in H3. now apply Nat.eqb_eq.
 Qed.
 
+(* mergeValues / emptyStream *)
+Lemma remove_all_in_other : forall vs x l, In x l -> ~ In x vs -> In x (remove_all vs l).
+Proof.
+  induction vs as [|v vs IH]; simpl; intros x l Hx Hn; [exact Hx|].
+  apply IH; [|tauto]. apply remove_one_in_other_h; [exact Hx|]. intros ->. apply Hn. now left.
+Qed.
+
+Lemma nodup_handles_NoDup : forall l, nodup_handles l = true -> NoDup l.
+Proof.
+  induction l as [|k l IH]; simpl; intros H; [constructor|].
+  apply andb_true_iff in H as [H1 H2]. apply negb_true_iff in H1. apply memb_false in H1.
+  constructor; auto.
+Qed.
+
+Lemma remove_all_perm : forall vs l, NoDup vs -> incl vs l -> Permutation l (vs ++ remove_all vs l).
+Proof.
+  induction vs as [|k vs IH]; simpl; intros l Hnd Hin; [reflexivity|].
+  inversion Hnd; subst.
+  assert (Hk : In k l) by (apply Hin; now left).
+  rewrite (remove_one_in_perm k l Hk) at 1. constructor. apply IH; [assumption|].
+  intros y Hy. apply remove_one_in_other_h; [apply Hin; now right|]. intros ->. contradiction.
+Qed.
+
+Lemma merge_spec : forall vs s h s', merge vs s = Ok (h, s') ->
+  Permutation (h :: s_open s) (vs ++ s_open s') /\ (store_ok s -> store_ok s').
+Proof.
+  unfold merge. intros vs s h s' H.
+  destruct (forallb (fun v => memb v (s_open s)) vs && nodup_handles vs) eqn:E; [|discriminate].
+  apply andb_true_iff in E as [E1 E2]. inversion H; subst h s'; clear H. simpl.
+  assert (Hin : incl vs (s_open s)).
+  { rewrite forallb_forall in E1. intros v Hv. apply memb_in. now apply E1. }
+  pose proof (nodup_handles_NoDup _ E2) as Hndv.
+  pose proof (remove_all_perm vs (s_open s) Hndv Hin) as HP.
+  assert (Hsub : forall x, In x (remove_all vs (s_open s)) -> In x (s_open s)).
+  { intros x Hx. eapply Permutation_in; [symmetry; exact HP|]. apply in_or_app. now right. }
+  split.
+  - rewrite HP at 1. rewrite app_assoc. apply Permutation_cons_append.
+  - intros (Hnd & Hlt & Hc & Hcp & Hmg & Hop). split; [|split]; simpl.
+    + apply NoDup_app_intro.
+      * eapply Permutation_NoDup in Hnd; [|exact HP]. now apply nodup_app_r in Hnd.
+      * repeat constructor. intros [].
+      * intros x Hx [<-|[]]. apply Hsub in Hx. apply Hlt in Hx. lia.
+    + intros x Hx. apply in_app_or in Hx as [Hx|[<-|[]]]; [apply Hsub, Hlt in Hx|]; lia.
+    + unfold hist_ok. simpl. split; [|split; [|split]].
+      * intros x Hx.
+        assert (Hold : forall y, created (s_hist s) y ->
+                  y < s_next s + 1 /\ (In y (remove_all vs (s_open s) ++ [s_next s]) \/
+                                        retired (HMerge vs (s_next s) :: s_hist s) y)).
+        { intros y Hy. destruct (Hc y Hy) as [Hl [Ho|Hr]]; split; try lia.
+          - destruct (in_dec N.eq_dec y vs) as [Hv|Hv].
+            + right. right. right. exists vs, (s_next s). split; [now left|exact Hv].
+            + left. apply in_or_app. left. now apply remove_all_in_other.
+          - right. now apply retired_cons. }
+        destruct Hx as [[E'|Hx]|[(p & cs & [E'|Hp] & Hx)|(hs & [E'|Hm])]]; try discriminate.
+        -- apply Hold. now left.
+        -- apply Hold. right. left. eauto.
+        -- inversion E'; subst hs x. split; [lia|]. left. apply in_or_app. right. now left.
+        -- apply Hold. right. right. eauto.
+      * intros p cs [E'|Hp] c Hcin; [discriminate|]. eapply Hcp; eauto.
+      * intros ms h' [E'|Hm] x Hx.
+        -- inversion E'; subst ms h'. apply Hlt. now apply Hin.
+        -- eapply Hmg; eauto.
+      * intros x Hx. apply in_app_or in Hx as [Hx|[<-|[]]].
+        -- apply created_cons. apply Hop. now apply Hsub.
+        -- right. right. exists vs. now left.
+Qed.
+
+
 (* ================================================================== Part 2 *)
 
 Section Dag.
@@ -218,6 +315,7 @@ Record SInv (B W : list key) (st : rstate) : Prop := {
   si_W : incl W B;
   si_frame : forall x, ~ In x (chan_keys g) -> rs_chans st x = chan0;
   si_ready : forall x p, ch_ctrl (rs_chans st x) p = DReady -> In p (rs_resolved st) \/ In p B;
+  si_skipmark : forall x p, ch_ctrl (rs_chans st x) p = DSkip -> In p (rs_resolved st) \/ In p B \/ skipped st p;
   si_data : forall x p, ch_data (rs_chans st x) p = true -> In p (rs_resolved st) \/ In p B \/ skipped st p;
   si_vals : forall x p h, ch_vals (rs_chans st x) p = Some h -> In p (rs_resolved st) \/ In p W;
   si_skipped : forall x, skipped st x ->
@@ -226,7 +324,7 @@ Record SInv (B W : list key) (st : rstate) : Prop := {
   si_started : forall x, In x (chan_keys g) -> started st x ->
       (forall p, ch_vals (rs_chans st x) p = None) /\
       (exists r, cpred r x /\ In r (rs_resolved st) /\ ch_ctrl (rs_chans st x) r = DWait) /\
-      (forall p, dpred p x -> In p (rs_resolved st) \/ skipped st p);
+      (forall p, dpred p x \/ cpred p x -> In p (rs_resolved st) \/ skipped st p);
   si_live : forall x, In x (chan_keys g) -> ~ skipped st x -> has_cpred x ->
       exists r, cpred r x /\ ch_ctrl (rs_chans st x) r <> DSkip;
 }.
@@ -358,6 +456,12 @@ Proof.
     + rewrite Hoth by exact Hne. apply (si_ready _ _ _ HI).
   - intros y p. rewrite Hr. destruct (N.eq_dec y x) as [->|Hne].
     + rewrite Hnew. simpl. intros E.
+      destruct (skip_ctrl_cases x k c p) as [E'|(-> & Hck & _)].
+      * rewrite E' in E. destruct (si_skipmark _ _ _ HI x p E) as [?|[?|?]]; auto.
+      * destruct Hsrc as [[?|?]|[Hnc _]]; auto. unfold cpred in Hck. congruence.
+    + rewrite Hoth by exact Hne. intros E. destruct (si_skipmark _ _ _ HI y p E) as [?|[?|?]]; auto.
+  - intros y p. rewrite Hr. destruct (N.eq_dec y x) as [->|Hne].
+    + rewrite Hnew. simpl. intros E.
       destruct (skip_data_cases x k c p) as [E'|(-> & Hdk & _)].
       * rewrite E' in E. destruct (si_data _ _ _ HI x p E) as [?|[?|?]]; auto.
       * destruct Hsrc as [[?|?]|[_ Hnd']]; auto. unfold dpred in Hdk. congruence.
@@ -392,53 +496,60 @@ Qed.
 
 Definition nonpred (k x : key) : Prop := is_ctrl_pred g k x = false /\ is_data_pred_g g k x = false.
 
-Lemma skip_each_inv : forall B W from xs st ks st',
+Lemma skip_each_inv : forall B W from xs q st ks q' st',
   SInv B W st -> (reporter B st from \/ forall x, In x xs -> nonpred from x) ->
-  skip_each g from xs st = Ok (ks, st') ->
-  SInv B W st' /\ (forall y, skipped st y -> skipped st' y) /\ (forall k, In k ks -> skipped st' k).
+  skip_each g from xs q st = Ok (ks, q', st') ->
+  SInv B W st' /\ (forall y, skipped st y -> skipped st' y) /\ (forall k, In k ks -> skipped st' k) /\
+  (forall x, In x xs -> (forall p, is_ctrl_pred g p x = false) -> skipped st' x).
 Proof.
-  intros B W from. induction xs as [|x xs IH]; simpl; intros st ks st' HI Hsrc H.
-  - inversion H; subst. split; [exact HI|]. split; [auto|]. intros k [].
-  - bind_ok H r1 H1. destruct r1 as [sk st1]. bind_ok H r2 H2. destruct r2 as [ks2 st2].
-    inversion H; subst ks st'; clear H.
+  intros B W from. induction xs as [|x xs IH]; simpl; intros q st ks q' st' HI Hsrc H.
+  - inversion H; subst. split; [exact HI|]. split; [auto|]. split; [intros k []|intros x []].
+  - bind_ok H r1 H1. destruct r1 as [sk st1]. bind_ok H r2 H2. destruct r2 as [[ks2 q2] st2].
+    inversion H; subst ks q' st'; clear H.
     assert (Hs1 : skip_src B st x from).
     { destruct Hsrc as [Hr|Hn]; [now left|right; apply Hn; now left]. }
     destruct (report_skip_inv _ _ _ _ _ _ _ HI Hs1 H1) as (HI1 & Hm1 & Hb1).
     assert (Hsrc2 : reporter B st1 from \/ forall y, In y xs -> nonpred from y).
     { destruct Hsrc as [[Hr|Hr]|Hn]; [left; now left|left; right; now apply Hm1|right; intros y Hy; apply Hn; now right]. }
-    destruct (IH _ _ _ HI1 Hsrc2 H2) as (HI2 & Hm2 & Hk2).
-    split; [exact HI2|]. split; [intros y Hy; apply Hm2, Hm1, Hy|].
-    intros k Hk. destruct sk; [destruct Hk as [<-|Hk]|]; auto.
+    destruct (IH _ _ _ _ _ HI1 Hsrc2 H2) as (HI2 & Hm2 & Hk2 & Hx2).
+    split; [exact HI2|]. split; [intros y Hy; apply Hm2, Hm1, Hy|]. split.
+    + intros k Hk. destruct (sk && negb (memb x q)) eqn:En; [destruct Hk as [<-|Hk]|]; auto.
+      apply andb_true_iff in En as [En _]. apply Hm2, Hb1, En.
+    + intros y [<-|Hy] Hc; [|now apply Hx2].
+      apply Hm2, Hb1. destruct (report_skip_eff _ _ _ _ _ H1) as (_ & Hb & _). rewrite Hb.
+      unfold skip_all. apply forallb_forall. intros p _. now rewrite Hc.
 Qed.
 
-Lemma cascade_inv : forall B W fuel work st st',
+Lemma cascade_inv : forall B W fuel work q st st',
   SInv B W st -> (forall k, In k work -> skipped st k) ->
-  cascade g fuel work st = Ok st' ->
+  cascade g fuel work q st = Ok st' ->
   SInv B W st' /\ (forall y, skipped st y -> skipped st' y).
 Proof.
-  intros B W. induction fuel as [|fuel IH]; intros work st st' HI Hw H.
+  intros B W. induction fuel as [|fuel IH]; intros work q st st' HI Hw H.
   - destruct work; simpl in H; [|discriminate]. inversion H; subst. auto.
   - destruct work as [|k rest]; simpl in H; [inversion H; subst; auto|].
     destruct (call_of g k) as [c|] eqn:Ec; [|discriminate].
-    bind_ok H r H1. destruct r as [ks st1].
+    bind_ok H r H1. destruct r as [[ks q1] st1].
     assert (Hrep : reporter B st k \/ forall x, In x (succs c) -> nonpred k x).
     { left. right. apply Hw. now left. }
-    destruct (skip_each_inv _ _ _ _ _ _ _ HI Hrep H1) as (HI1 & Hm1 & Hk1).
+    destruct (skip_each_inv _ _ _ _ _ _ _ _ _ HI Hrep H1) as (HI1 & Hm1 & Hk1 & _).
     assert (Hw1 : forall k', In k' (rest ++ ks) -> skipped st1 k').
     { intros k' Hk'. apply in_app_or in Hk' as [Hk'|Hk']; [apply Hm1, Hw; now right|now apply Hk1]. }
-    destruct (IH _ _ _ HI1 Hw1 H) as (HI2 & Hm2). split; [exact HI2|]. intros y Hy. apply Hm2, Hm1, Hy.
+    destruct (IH _ _ _ _ HI1 Hw1 H) as (HI2 & Hm2). split; [exact HI2|]. intros y Hy. apply Hm2, Hm1, Hy.
 Qed.
 
 Lemma report_branch_inv : forall B W from xs st st',
   SInv B W st -> (reporter B st from \/ forall x, In x xs -> nonpred from x) ->
   report_branch g from xs st = Ok st' ->
-  SInv B W st' /\ (forall y, skipped st y -> skipped st' y).
+  SInv B W st' /\ (forall y, skipped st y -> skipped st' y) /\
+  (forall x, In x xs -> (forall p, is_ctrl_pred g p x = false) -> skipped st' x).
 Proof.
   intros B W from xs st st' HI Hsrc H. unfold report_branch in H.
-  bind_ok H r H1. destruct r as [ks st1].
-  destruct (skip_each_inv _ _ _ _ _ _ _ HI Hsrc H1) as (HI1 & Hm1 & Hk1).
-  destruct (cascade_inv _ _ _ _ _ _ HI1 Hk1 H) as (HI2 & Hm2).
-  split; [exact HI2|]. intros y Hy. apply Hm2, Hm1, Hy.
+  bind_ok H r H1. destruct r as [[ks q] st1].
+  destruct (skip_each_inv _ _ _ _ _ _ _ _ _ HI Hsrc H1) as (HI1 & Hm1 & Hk1 & Hx1).
+  destruct (cascade_inv _ _ _ _ _ _ _ HI1 Hk1 H) as (HI2 & Hm2).
+  split; [exact HI2|]. split; [intros y Hy; apply Hm2, Hm1, Hy|].
+  intros x Hx Hc. apply Hm2. now apply Hx1.
 Qed.
 
 (* ---- effect of channel.reportValues / reportDependencies (all-predecessor mode) *)
@@ -519,7 +630,7 @@ Proof.
     { intros y. unfold started. rewrite Hp, Hr. tauto. }
     assert (Hnst : ~ started st x).
     { intros Hs. destruct (si_started _ _ _ HI x Hx Hs) as (_ & _ & Hdp).
-      destruct (resolving_not_finished _ _ _ _ HI Hfrom) as [Hn1 Hn2]. destruct (Hdp from Hd); contradiction. }
+      destruct (resolving_not_finished _ _ _ _ HI Hfrom) as [Hn1 Hn2]. destruct (Hdp from (or_introl Hd)); contradiction. }
     constructor.
     + rewrite Hp, Hr. apply (si_nodup _ _ _ HI).
     + rewrite Hp. apply (si_B _ _ _ HI).
@@ -528,6 +639,9 @@ Proof.
     + intros y p. rewrite Hr. destruct (N.eq_dec y x) as [->|Hne].
       * rewrite Hnew. simpl. apply (si_ready _ _ _ HI).
       * rewrite Hoth by exact Hne. apply (si_ready _ _ _ HI).
+    + intros y p. rewrite Hr, Hsk. destruct (N.eq_dec y x) as [->|Hne].
+      * rewrite Hnew. simpl. apply (si_skipmark _ _ _ HI).
+      * rewrite Hoth by exact Hne. apply (si_skipmark _ _ _ HI).
     + intros y p. rewrite Hr, Hsk. destruct (N.eq_dec y x) as [->|Hne].
       * rewrite Hnew. simpl. destruct (N.eq_dec p from) as [->|Hpf]; [auto|].
         rewrite upd_other by exact Hpf. apply (si_data _ _ _ HI).
@@ -572,6 +686,10 @@ Proof.
       rewrite upd_other by exact Hpf. apply (si_ready _ _ _ HI).
     + rewrite Hoth by exact Hne. apply (si_ready _ _ _ HI).
   - intros y p. rewrite Hr, Hsk. destruct (N.eq_dec y x) as [->|Hne].
+    + rewrite Hnew. simpl. destruct (N.eq_dec p from) as [->|Hpf]; [rewrite upd_same; discriminate|].
+      rewrite upd_other by exact Hpf. apply (si_skipmark _ _ _ HI).
+    + rewrite Hoth by exact Hne. apply (si_skipmark _ _ _ HI).
+  - intros y p. rewrite Hr, Hsk. destruct (N.eq_dec y x) as [->|Hne].
     + rewrite Hnew. simpl. apply (si_data _ _ _ HI).
     + rewrite Hoth by exact Hne. apply (si_data _ _ _ HI).
   - intros y p h'. rewrite Hr. destruct (N.eq_dec y x) as [->|Hne].
@@ -615,35 +733,29 @@ Proof.
   set (st1 := add_pending [x] (set_chan st x (chan_reset (rs_chans st x)))) in *.
   set (st2 := set_log st1 (log_get (List.length vs) x (rs_log st1))) in *.
   assert (Hch : forall y, rs_chans st2 y = if N.eqb y x then chan_reset (rs_chans st x) else rs_chans st y) by reflexivity.
-  assert (Hmerge : forall s h s', consume_all vs (rs_store st2) = Ok s -> fresh s = (h, s') ->
-            Permutation (h :: s_open (rs_store st)) (vs ++ s_open s') /\ (store_ok (rs_store st) -> store_ok s')).
-  { intros s h s' Hc Hf. destruct (consume_all_perm _ _ _ Hc) as (HP & _ & _).
-    destruct (fresh_spec _ _ _ Hf) as (Ho & Hok). change (rs_store st2) with (rs_store st) in *. split.
-    - rewrite Ho. rewrite HP. rewrite app_assoc. apply Permutation_cons_append.
-    - intros Hs. apply Hok. eapply consume_all_ok; eauto. }
-  assert (Hgen : forall h s', (exists s, consume_all vs (rs_store st2) = Ok s /\ fresh s = (h, s')) ->
+  assert (Hgen : forall h s', merge vs (rs_store st2) = Ok (h, s') ->
             oh = Some h -> st' = set_store st2 s' ->
             exists h0, oh = Some h0 /\ true = true /\ rs_pending st' = rs_pending st ++ [x] /\ rs_resolved st' = rs_resolved st /\
               (forall y, y <> x -> rs_chans st' y = rs_chans st y) /\ rs_chans st' x = chan_reset (rs_chans st x) /\
               Permutation (h0 :: s_open (rs_store st)) (vs ++ s_open (rs_store st')) /\
               (store_ok (rs_store st) -> store_ok (rs_store st'))).
-  { intros h s' (s & Hc & Hf) -> ->. destruct (Hmerge _ _ _ Hc Hf) as (HP & Hok).
+  { intros h s' Hm -> ->. destruct (merge_spec _ _ _ _ Hm) as (HP & Hok). change (rs_store st2) with (rs_store st) in *.
     exists h. split; [reflexivity|]. split; [reflexivity|]. split; [reflexivity|]. split; [reflexivity|]. split; [|split; [|split]].
     - intros y Hy. change (rs_chans (set_store st2 s')) with (rs_chans st2). rewrite Hch. destruct (N.eqb_spec y x); congruence.
     - change (rs_chans (set_store st2 s')) with (rs_chans st2). rewrite Hch. now rewrite N.eqb_refl.
     - exact HP.
     - exact Hok. }
   destruct vs as [|h0 [|h1 vs']] eqn:Evs.
-  - bind_ok H s Hc. inversion H; subst oh st'; clear H.
-    eapply Hgen; [exists s; split; [exact Hc|reflexivity]|reflexivity|reflexivity].
+  - bind_ok H r Hm. destruct r as [h s']. inversion H; subst oh st'; clear H.
+    eapply Hgen; [exact Hm|reflexivity|reflexivity].
   - inversion H; subst oh st'; clear H. exists h0. split; [reflexivity|]. split; [reflexivity|].
     split; [reflexivity|]. split; [reflexivity|]. split; [|split; [|split]].
     + intros y Hy. rewrite Hch. destruct (N.eqb_spec y x); congruence.
     + rewrite Hch. now rewrite N.eqb_refl.
     + reflexivity.
     + auto.
-  - bind_ok H s Hc. inversion H; subst oh st'; clear H.
-    eapply Hgen; [exists s; split; [exact Hc|reflexivity]|reflexivity|reflexivity].
+  - bind_ok H r Hm. destruct r as [h s']. inversion H; subst oh st'; clear H.
+    eapply Hgen; [exact Hm|reflexivity|reflexivity].
 Qed.
 
 Lemma chan_ready_dag : forall x c, chan_ready g x c = true ->
@@ -700,6 +812,9 @@ Proof.
     + rewrite Hoth by exact Hne. apply (si_ready _ _ _ HI).
   - intros y p. rewrite Hr, Hsk. destruct (N.eq_dec y x) as [->|Hne].
     + rewrite Hnew. simpl. discriminate.
+    + rewrite Hoth by exact Hne. apply (si_skipmark _ _ _ HI).
+  - intros y p. rewrite Hr, Hsk. destruct (N.eq_dec y x) as [->|Hne].
+    + rewrite Hnew. simpl. discriminate.
     + rewrite Hoth by exact Hne. apply (si_data _ _ _ HI).
   - intros y p h'. rewrite Hr. destruct (N.eq_dec y x) as [->|Hne].
     + rewrite Hnew. simpl. discriminate.
@@ -710,7 +825,11 @@ Proof.
   - intros y Hyc Hy. apply Hst in Hy. destruct (N.eq_dec y x) as [->|Hne].
     + rewrite Hnew. simpl. split; [reflexivity|]. split.
       * exists r. rewrite Hr. auto.
-      * intros p Hdp. rewrite Hr, Hsk. destruct (si_data _ _ _ HI x p (Hdata p Hdp)) as [?|[[]|?]]; auto.
+      * intros p [Hdp|Hcp]; rewrite Hr, Hsk.
+        -- destruct (si_data _ _ _ HI x p (Hdata p Hdp)) as [?|[[]|?]]; auto.
+        -- pose proof (Hctrl p Hcp) as Hw. destruct (ch_ctrl (rs_chans st x) p) eqn:E; try congruence.
+           ++ destruct (si_ready _ _ _ HI x p E) as [?|[]]. now left.
+           ++ destruct (si_skipmark _ _ _ HI x p E) as [?|[[]|?]]; auto.
     + destruct Hy as [Hy|Hy]; [|contradiction]. rewrite Hoth by exact Hne.
       destruct (si_started _ _ _ HI y Hyc Hy) as (Hv & (r' & Hr1 & Hr2 & Hr3) & Hdp).
       split; [exact Hv|]. split; [exists r'; rewrite Hr; auto|]. intros p Hp'. rewrite Hr, Hsk. now apply Hdp.
@@ -753,18 +872,19 @@ Proof.
   intros B st HI HB. destruct HI. constructor; auto.
   - intros y [].
   - intros x p E. destruct (si_ready0 x p E) as [?|[]]. now left.
+  - intros x p E. destruct (si_skipmark0 x p E) as [?|[[]|?]]; auto.
   - intros x p E. destruct (si_data0 x p E) as [?|[[]|?]]; auto.
 Qed.
 
-Lemma resolve_one_inv : forall B W t out st r st',
-  SInv B W st -> In (t_node t) B -> resolve_one g t out st = Ok (r, st') ->
+Lemma resolve_one_inv : forall B W c t out st r st',
+  SInv B W st -> In (t_node t) B -> resolve_one g c t out st = Ok (r, st') ->
   SInv B W st' /\ (forall y, skipped st y -> skipped st' y).
 Proof.
-  intros B W t out st r st' HI Ht H. unfold resolve_one in H.
+  intros B W c t out st r st' HI Ht H. unfold resolve_one in H.
   bind_ok H r0 H0. bind_ok H s2 H2. bind_ok H st3 H3. bind_ok H st4 H4. inversion H; subst r0 st'; clear H.
   set (st2 := set_store (set_store st (r_store r)) s2) in *.
   assert (HI2 : SInv B W st2) by (eapply SInv_ext; [exact HI|reflexivity|now split]).
-  destruct (report_branch_inv _ _ _ _ _ _ HI2 (or_introl (or_introl Ht)) H3) as (HI3 & Hm3).
+  destruct (report_branch_inv _ _ _ _ _ _ HI2 (or_introl (or_introl Ht)) H3) as (HI3 & Hm3 & _).
   destruct (close_all_spec _ _ _ _ H4) as (Hc & Hts & _ & _).
   split; [eapply SInv_ext; eauto|].
   intros y Hy. unfold skipped. rewrite Hc. apply Hm3. exact Hy.
@@ -785,7 +905,7 @@ Proof.
     { unfold mk_task in Ht. destruct (negb _); [discriminate|]. inversion Ht; subst. reflexivity. }
     assert (HkB : In (t_node t) B) by (rewrite Hk; apply Hin; now left).
     assert (HI0 : SInv B W (set_store st s1)) by (eapply SInv_ext; [exact HI|reflexivity|now split]).
-    destruct (resolve_one_inv _ _ _ _ _ _ _ HI0 HkB H1) as (HI1 & Hm1).
+    destruct (resolve_one_inv _ _ _ _ _ _ _ _ HI0 HkB H1) as (HI1 & Hm1).
     destruct (IH _ _ _ HI1 (fun y Hy => Hin y (or_intror Hy)) H2) as (HI2 & Hm2 & Hl2).
     split; [exact HI2|]. split; [intros y Hy; apply Hm2, Hm1, Hy|].
     intros c' t' r' [E|Hin']; [inversion E; subst; exact HkB|eauto].
@@ -861,6 +981,7 @@ Proof.
   - intros y [].
   - intros y Hy. rewrite Hc. now apply (si_frame _ _ _ HI).
   - intros x p. rewrite Hc. intros E. left. apply HR. apply (si_ready _ _ _ HI x p E).
+  - intros x p. rewrite Hc, Hsk. intros E. destruct (si_skipmark _ _ _ HI x p E) as [?|[?|?]]; auto.
   - intros x p. rewrite Hc, Hsk. intros E. destruct (si_data _ _ _ HI x p E) as [?|[?|?]]; auto.
   - intros x p h. rewrite Hc. intros E. left. apply HR. destruct (si_vals _ _ _ HI x p h E) as [?|Hw]; auto.
     right. now apply (si_W _ _ _ HI).
@@ -917,8 +1038,7 @@ Proof.
   destruct (f k) eqn:E; simpl in H; [discriminate|]. destruct Hp as [->|Hp]; auto.
 Qed.
 
-Definition held (st : rstate) : list handle :=
-  flat_map (fun x => chan_values g (rs_chans st x)) (chan_keys g).
+Notation held := (StreamRun.held g).
 
 Lemma chan_keys_nodup : NoDup (chan_keys g).
 Proof.
@@ -991,29 +1111,29 @@ Proof.
   destruct b; rewrite ?vlist_none in *; rewrite ?cnt_app, ?cnt_nil in *; lia.
 Qed.
 
-Lemma skip_each_acc : forall from xs I st ks st',
-  Acc I st -> skip_each g from xs st = Ok (ks, st') -> Acc I st'.
+Lemma skip_each_acc : forall from xs q I st ks q' st',
+  Acc I st -> skip_each g from xs q st = Ok (ks, q', st') -> Acc I st'.
 Proof.
-  intros from. induction xs as [|x xs IH]; simpl; intros I st ks st' HA H.
+  intros from. induction xs as [|x xs IH]; simpl; intros q I st ks q' st' HA H.
   - inversion H; subst. exact HA.
-  - bind_ok H r1 H1. destruct r1 as [sk st1]. bind_ok H r2 H2. destruct r2 as [ks2 st2].
+  - bind_ok H r1 H1. destruct r1 as [sk st1]. bind_ok H r2 H2. destruct r2 as [[ks2 q2] st2].
     inversion H; subst. eapply IH; [|exact H2]. eapply report_skip_acc; eauto.
 Qed.
 
-Lemma cascade_acc : forall fuel work I st st',
-  Acc I st -> cascade g fuel work st = Ok st' -> Acc I st'.
+Lemma cascade_acc : forall fuel work q I st st',
+  Acc I st -> cascade g fuel work q st = Ok st' -> Acc I st'.
 Proof.
-  induction fuel as [|fuel IH]; intros work I st st' HA H.
+  induction fuel as [|fuel IH]; intros work q I st st' HA H.
   - destruct work; simpl in H; [|discriminate]. inversion H; subst. exact HA.
   - destruct work as [|k rest]; simpl in H; [inversion H; subst; exact HA|].
-    destruct (call_of g k) as [c|]; [|discriminate]. bind_ok H r H1. destruct r as [ks st1].
+    destruct (call_of g k) as [c|]; [|discriminate]. bind_ok H r H1. destruct r as [[ks q1] st1].
     eapply IH; [|exact H]. eapply skip_each_acc; eauto.
 Qed.
 
 Lemma report_branch_acc : forall from xs I st st',
   Acc I st -> report_branch g from xs st = Ok st' -> Acc I st'.
 Proof.
-  intros from xs I st st' HA H. unfold report_branch in H. bind_ok H r H1. destruct r as [ks st1].
+  intros from xs I st st' HA H. unfold report_branch in H. bind_ok H r H1. destruct r as [[ks q] st1].
   eapply cascade_acc; [|exact H]. eapply skip_each_acc; eauto.
 Qed.
 
@@ -1196,11 +1316,11 @@ Qed.
 (* ---- resolveCompletedTasks for one task *)
 Local Opaque fresh.
 
-Lemma resolve_one_acc : forall t out I st r st',
-  Acc (out :: I) st -> resolve_one g t out st = Ok (r, st') ->
+Lemma resolve_one_acc : forall c t out I st r st',
+  Acc (out :: I) st -> resolve_one g c t out st = Ok (r, st') ->
   Acc (map snd (r_writes r) ++ I) st' /\ map fst (r_writes r) = next_keys t.
 Proof.
-  intros t out I st r st' [Hok HP] H. unfold resolve_one in H.
+  intros c t out I st r st' [Hok HP] H. unfold resolve_one in H.
   bind_ok H r0 H0. bind_ok H s2 H2. bind_ok H st3 H3. bind_ok H st4 H4. inversion H; subst r0 st'; clear H.
   assert (Hin : In out (s_open (rs_store st))).
   { eapply Permutation_in; [symmetry; exact HP|]. apply in_or_app. right. now left. }
@@ -1290,7 +1410,7 @@ Proof.
     inversion H; subst l st'; clear H.
     destruct (mk_task_spec _ _ _ _ Ht) as (Hk & _ & _).
     pose proof (fresh_acc _ _ _ _ HA Ef) as HA0.
-    destruct (resolve_one_acc g Hnd Hend _ _ _ _ _ _ HA0 H1) as (HA1 & Hkeys).
+    destruct (resolve_one_acc g Hnd Hend _ _ _ _ _ _ _ HA0 H1) as (HA1 & Hkeys).
     destruct (IH _ _ _ _ HA1 H2) as (HA2 & Hl2 & Hn2).
     split; [|split].
     + eapply Acc_perm; [|exact HA2]. unfold inflight. simpl. rewrite <- app_assoc. apply Permutation_app_swap_app.
@@ -1362,6 +1482,8 @@ Qed.
 
 End Phases.
 
+
+
 (* ------------------------------------------------------------------ all-predecessor mode: the run *)
 Section DagRun.
 Variable g : graph.
@@ -1380,20 +1502,18 @@ Definition dag_inv (st : rstate) : Prop := SInv g [] [] st /\ Cov g st /\ Acc g 
 Lemma Cov_mono : forall st st', Cov g st -> (forall y, skipped st y -> skipped st' y) -> Cov g st'.
 Proof. intros st st' H Hm x Hx. destruct (H x Hx); [now left|right; auto]. Qed.
 
-Lemma superstep_dag : forall b st o,
-  dag_inv st -> superstep g b st = Ok o ->
-  match o with
-  | Running st' => dag_inv st'
-  | Done out dropped st' =>
-      SInv g [] [] st' /\ Acc g (out :: map snd dropped) st' /\ In kEND (rs_pending st') /\
-      (forall y h, In (y, h) dropped -> In y (rs_pending st') /\ In y (all_keys g) /\ y <> kSTART)
-  end.
+(* calculateNextTasks: the invariants hold again, the ready values are the only in-flight handles *)
+Lemma calc_next_dag : forall b st ready st4,
+  dag_inv st -> calc_next g b st = Ok (ready, st4) ->
+  SInv g [] [] st4 /\ Cov g st4 /\ Acc g (map snd ready) st4 /\
+  NoDup (map fst ready) /\ incl (map fst ready) (chan_keys g) /\
+  (forall y, In y (map fst ready) -> In y (rs_pending st4)).
 Proof.
-  intros b st o (HI & Hcov & HA) H. unfold superstep in H.
+  intros b st ready st4 (HI & Hcov & HA) H. unfold calc_next in H.
   destruct (batch_fits g b (rs_pending st)) eqn:Eb; simpl in H; [|discriminate].
   destruct (batch_fits_spec _ _ _ Eb) as (HndB & HinB & _).
   set (B := map fst b) in *.
-  bind_ok H r1 H1. destruct r1 as [l st1]. bind_ok H st2 H2. bind_ok H st3 H3. bind_ok H r4 H4. destruct r4 as [ready st4].
+  bind_ok H r1 H1. destruct r1 as [l st1]. bind_ok H st2 H2. bind_ok H st3 H3. rename H into H4.
   (* phase 1 *)
   pose proof (SInv_weaken g B st HI HinB) as HIB.
   destruct (phase1_inv g Hdag _ _ _ _ _ _ HIB (incl_refl _) H1) as (HI1 & Hm1 & Hl1).
@@ -1418,6 +1538,21 @@ Proof.
   destruct (get_ready_inv g Hdag _ _ _ _ HI3' Hcov3 (incl_refl _) H4) as (HI4 & Hs4 & Hp4 & Hf4).
   pose proof (get_ready_acc g Hnd Hend _ _ _ _ _ HA3' (incl_refl _) H4) as HA4. rewrite app_nil_r in HA4.
   destruct (get_ready_keys g _ _ _ _ (chan_keys_nodup g Hnd Hend) H4) as (Hrn & Hri).
+  split; [exact HI4|]. split; [|split; [exact HA4|split; [exact Hrn|split; [exact Hri|exact Hf4]]]].
+  eapply Cov_mono; [exact Hcov3|]. intros y Hy. now apply Hs4.
+Qed.
+
+Lemma superstep_dag : forall b st o,
+  dag_inv st -> superstep g b st = Ok o ->
+  match o with
+  | Running st' => dag_inv st'
+  | Done out dropped st' =>
+      SInv g [] [] st' /\ Acc g (out :: map snd dropped) st' /\ In kEND (rs_pending st') /\
+      (forall y h, In (y, h) dropped -> In y (rs_pending st') /\ In y (all_keys g) /\ y <> kSTART)
+  end.
+Proof.
+  intros b st o Hinv H. unfold superstep in H. bind_ok H r4 H4. destruct r4 as [ready st4].
+  destruct (calc_next_dag _ _ _ _ Hinv H4) as (HI4 & Hcov4 & HA4 & Hrn & Hri & Hf4).
   destruct (nlist_get kEND ready) as [out|] eqn:Ee.
   - inversion H; subst o; clear H. split; [exact HI4|]. split.
     + eapply Acc_perm; [|exact HA4].
@@ -1431,7 +1566,7 @@ Proof.
     assert (HA5 : Acc g [] (set_store st4 s)).
     { eapply consume_all_acc; [|exact Hs]. now rewrite app_nil_r. }
     split; [eapply SInv_ext; [exact HI4|reflexivity|now split]|]. split; [|exact HA5].
-    eapply Cov_mono; [exact Hcov3|]. intros y Hy. change (skipped st4 y). now apply Hs4.
+    eapply Cov_mono; [exact Hcov4|]. intros y Hy. exact Hy.
 Qed.
 
 Lemma run_from_dag : forall sched st out dropped st',
@@ -1459,18 +1594,6 @@ Proof.
   - unfold is_ctrl_pred, is_data_pred_g. now rewrite Ec.
 Qed.
 
-Lemma skip_each_noctrl : forall from xs st ks st',
-  skip_each g from xs st = Ok (ks, st') -> (forall x, In x xs -> forall p, is_ctrl_pred g p x = false) -> incl xs ks.
-Proof.
-  intros from. induction xs as [|x xs IH]; simpl; intros st ks st' H Hno; [intros y []|].
-  bind_ok H r1 H1. destruct r1 as [sk st1]. bind_ok H r2 H2. destruct r2 as [ks2 st2].
-  inversion H; subst ks st'; clear H.
-  destruct (report_skip_eff g Hdag _ _ _ _ _ H1) as (_ & Hb & _).
-  assert (sk = true).
-  { rewrite Hb. unfold skip_all. apply forallb_forall. intros p _. rewrite (Hno x (or_introl eq_refl) p). reflexivity. }
-  rewrite H. intros y [<-|Hy]; [now left|right]. eapply IH; eauto.
-Qed.
-
 Lemma state0_inv : SInv g [] [] state0 /\ Acc g [] state0.
 Proof.
   split.
@@ -1481,7 +1604,13 @@ Proof.
     + reflexivity.
     + intros x Hx [[<-|[]]|[]]. exfalso. now apply (start_not_chan g).
     + intros x _ _ (r & Hr). exists r. split; [exact Hr|discriminate].
-  - split; [split; [constructor|intros h []]|]. simpl. rewrite app_nil_r. unfold held.
+  - assert (Hs0 : store_ok (rs_store state0)).
+    { split; [constructor|]. split; [intros h []|]. unfold hist_ok. simpl. split; [|split; [|split]].
+      - intros h [[]|[(p & cs & [] & _)|(hs & [])]].
+      - intros p cs [].
+      - intros hs h' [].
+      - intros h []. }
+    split; [exact Hs0|]. simpl. rewrite app_nil_r. unfold held.
     assert (E : forall l, flat_map (fun x => chan_values g (rs_chans state0 x)) l = []).
     { induction l as [|a l IH]; cbn [flat_map]; [reflexivity|]. rewrite IH, app_nil_r. rewrite chan_values_vlist.
       apply vlist_all_none. reflexivity. }
@@ -1494,18 +1623,14 @@ Proof.
   destruct state0_inv as (HI0 & HA0).
   assert (Hnp : forall x, In x (unreachable g) -> nonpred g kSTART x).
   { intros x Hx. apply (unreachable_spec x Hx kSTART). }
-  destruct (report_branch_inv g Hdag _ _ _ _ _ _ HI0 (or_intror Hnp) H) as (HI & Hm).
+  destruct (report_branch_inv g Hdag _ _ _ _ _ _ HI0 (or_intror Hnp) H) as (HI & Hm & Hun).
   pose proof (report_branch_acc g Hnd Hend _ _ _ _ _ HA0 H) as HA.
   split; [exact HI|]. split; [|exact HA].
   (* the nodes without any predecessor are skipped *)
-  unfold report_branch in H. bind_ok H r H1. destruct r as [ks st1].
-  destruct (skip_each_inv g Hdag _ _ _ _ _ _ _ HI0 (or_intror Hnp) H1) as (HI1 & _ & Hk1).
-  destruct (cascade_inv g Hdag _ _ _ _ _ _ HI1 Hk1 H) as (_ & Hm2).
-  pose proof (skip_each_noctrl _ _ _ _ _ H1 (fun x Hx p => proj1 (unreachable_spec x Hx p))) as Hinc.
   intros x Hx. unfold covered in Hcov. rewrite forallb_forall in Hcov. specialize (Hcov x Hx).
   apply orb_true_iff in Hcov as [Hc|Hc].
   - left. apply existsb_exists in Hc as (p & _ & Hp). exists p. exact Hp.
-  - right. apply memb_in in Hc. apply Hm2, Hk1, Hinc, Hc.
+  - right. apply memb_in in Hc. apply (Hun x Hc). intros p. apply (unreachable_spec x Hc p).
 Qed.
 
 (* ---- open_empty_at_end, all-predecessor mode *)
@@ -1545,6 +1670,66 @@ Proof.
   symmetry in HP. apply Permutation_length_1_inv in HP. exact HP.
 Qed.
 
+(* ---- graphs in which every node reaches END along control edges / branches: Done implies that
+   every node ran or was skipped *)
+Inductive reaches : key -> Prop :=
+| reach_end : forall x, cpred g x kEND -> reaches x
+| reach_step : forall x y, cpred g x y -> In y (chan_keys g) -> reaches y -> reaches x.
+
+Definition fin (st : rstate) (x : key) : Prop := In x (rs_resolved st) \/ skipped st x.
+
+Lemma pred_of_finished : forall st x y,
+  SInv g [] [] st -> In y (chan_keys g) -> (started st y \/ skipped st y) -> cpred g x y -> fin st x.
+Proof.
+  intros st x y HI Hy [Hs|Hs] Hc.
+  - destruct (si_started _ _ _ _ HI y Hy Hs) as (_ & _ & Hp). apply Hp. now right.
+  - destruct (si_skipped _ _ _ _ HI y Hs) as (_ & _ & Hall).
+    destruct (si_skipmark _ _ _ _ HI y x (Hall x Hc)) as [?|[[]|?]]; [now left|now right].
+Qed.
+
+Lemma reaches_finished : forall st x,
+  SInv g [] [] st -> In kEND (rs_pending st) -> reaches x -> fin st x.
+Proof.
+  intros st x HI Hend' Hr. induction Hr as [x Hc|x y Hc Hy _ IH].
+  - apply (pred_of_finished st x kEND HI); [now left|left; now left|exact Hc].
+  - apply (pred_of_finished st x y HI Hy); [|exact Hc]. destruct IH as [Hr|Hs]; [left; now right|now right].
+Qed.
+
+Lemma reach_iter_sound : forall n S, (forall y, In y S -> reaches y) -> forall x, In x (reach_iter g n S) -> reaches x.
+Proof.
+  induction n as [|n IH]; simpl; intros S HS x Hx; [now apply HS|].
+  eapply IH; [|exact Hx]. intros y Hy.
+  apply in_app_or in Hy as [Hy|Hy]; [now apply HS|].
+  apply filter_In in Hy as [_ Hy]. apply existsb_exists in Hy as (z & Hz & Hc).
+  apply andb_true_iff in Hc as [Hc1 Hc2]. apply (reach_step y z Hc1); [now apply is_chan_in|now apply HS].
+Qed.
+
+Lemma reach_set_sound : forall x, In x (reach_set g) -> reaches x.
+Proof.
+  intros x Hx. eapply reach_iter_sound; [|exact Hx]. intros y Hy.
+  apply filter_In in Hy as [_ Hy]. now apply reach_end.
+Qed.
+
+(* open_empty_at_end for graphs in which every node reaches END: no hypothesis on the final state *)
+Theorem open_empty_at_end_dag_reach_l : forall sched out dropped st,
+  covered g = true -> all_reach g = true ->
+  run g sched = Ok (Done out dropped st) ->
+  all_finished g st = true /\ s_open (rs_store st) = [out] /\ dropped = [].
+Proof.
+  intros sched out dropped st Hcov Hreach H.
+  assert (Hfin : all_finished g st = true).
+  { pose proof H as H'. unfold run in H'. bind_ok H' st0 H0.
+    pose proof (init_dag _ Hcov H0) as Hinv.
+    destruct (run_from_dag _ _ _ _ _ Hinv H') as (HI & _ & HendP & _).
+    unfold all_finished. apply forallb_forall. intros x Hx.
+    unfold all_reach in Hreach. rewrite forallb_forall in Hreach. specialize (Hreach x Hx).
+    apply orb_true_iff in Hreach as [Hs|Hm]; [now rewrite Hs|].
+    apply memb_in in Hm. destruct (reaches_finished st x HI HendP (reach_set_sound x Hm)) as [Hr|Hs].
+    - apply memb_in in Hr. rewrite Hr. now rewrite orb_true_r.
+    - unfold skipped in Hs. rewrite Hs. now rewrite orb_true_r. }
+  split; [exact Hfin|]. eapply open_empty_at_end_dag_l; eauto.
+Qed.
+
 End DagRun.
 
 (* ------------------------------------------------------------------ any-predecessor mode (Pregel) *)
@@ -1561,13 +1746,13 @@ Definition pregel_inv (st : rstate) : Prop := all_empty st /\ Acc g [] st.
 
 Lemma report_branch_pregel : forall from xs st st', report_branch g from xs st = Ok st' -> st' = st.
 Proof.
-  intros from xs st st' H. unfold report_branch in H. bind_ok H r H1. destruct r as [ks st1].
-  assert (E : forall xs0 sta ks0 stb, skip_each g from xs0 sta = Ok (ks0, stb) -> ks0 = [] /\ stb = sta).
-  { induction xs0 as [|x xs0 IH]; simpl; intros sta ks0 stb H0.
+  intros from xs st st' H. unfold report_branch in H. bind_ok H r H1. destruct r as [[ks q] st1].
+  assert (E : forall xs0 q0 sta ks0 q1 stb, skip_each g from xs0 q0 sta = Ok (ks0, q1, stb) -> ks0 = [] /\ stb = sta).
+  { induction xs0 as [|x xs0 IH]; simpl; intros q0 sta ks0 q1 stb H0.
     - inversion H0; subst. auto.
     - unfold report_skip in H0 at 1. rewrite Hpre in H0. simpl in H0.
-      bind_ok H0 r2 H2. destruct r2 as [ks2 st2]. inversion H0; subst. now apply IH in H2. }
-  destruct (E _ _ _ _ H1) as [-> ->]. destruct CASCADE_FUEL; simpl in H; inversion H; reflexivity.
+      bind_ok H0 r2 H2. destruct r2 as [[ks2 q2] st2]. inversion H0; subst. now apply IH in H2. }
+  destruct (E _ _ _ _ _ _ H1) as [-> ->]. destruct CASCADE_FUEL; simpl in H; inversion H; reflexivity.
 Qed.
 
 Lemma phase1_pregel : forall b st l st', phase1 g b st = Ok (l, st') -> rs_chans st' = rs_chans st.
@@ -1627,17 +1812,14 @@ Proof.
     + intros y Hy. rewrite Ho by tauto. apply Hoth1. intros ->. apply Hy. now left.
 Qed.
 
-Lemma superstep_pregel : forall b st o,
-  pregel_inv st -> superstep g b st = Ok o ->
-  match o with
-  | Running st' => pregel_inv st'
-  | Done out dropped st' => all_empty st' /\ Acc g (out :: map snd dropped) st'
-  end.
+Lemma calc_next_pregel : forall b st ready st4,
+  pregel_inv st -> calc_next g b st = Ok (ready, st4) ->
+  all_empty st4 /\ Acc g (map snd ready) st4 /\ NoDup (map fst ready).
 Proof.
-  intros b st o (Hemp & HA) H. unfold superstep in H.
+  intros b st ready st4 (Hemp & HA) H. unfold calc_next in H.
   destruct (batch_fits g b (rs_pending st)) eqn:Eb; simpl in H; [|discriminate].
   destruct (batch_fits_spec _ _ _ Eb) as (HndB & HinB & _).
-  bind_ok H r1 H1. destruct r1 as [l st1]. bind_ok H st2 H2. bind_ok H st3 H3. bind_ok H r4 H4. destruct r4 as [ready st4].
+  bind_ok H r1 H1. destruct r1 as [l st1]. bind_ok H st2 H2. bind_ok H st3 H3. rename H into H4.
   destruct (phase1_acc g Hnd Hend _ _ _ _ _ HA H1) as (HA1 & Hel & Hnodes).
   pose proof (phase1_pregel _ _ _ _ H1) as Hc1.
   assert (Hin : forall e, In e l -> In (node_of e) (all_keys g)).
@@ -1652,10 +1834,21 @@ Proof.
   pose proof (get_ready_acc g Hnd Hend _ _ _ _ _ HA3' (incl_refl _) H4) as HA4. rewrite app_nil_r in HA4.
   destruct (get_ready_keys g _ _ _ _ (chan_keys_nodup g Hnd Hend) H4) as (Hrn & Hri).
   destruct (get_ready_empty _ _ _ _ (chan_keys_nodup g Hnd Hend) H4) as (He4 & Ho4).
-  assert (Hemp4 : all_empty st4).
-  { intros y p Hp. destruct (in_dec N.eq_dec y (chan_keys g)) as [Hy|Hy]; [now apply He4|].
-    rewrite (Ho4 y Hy). change (rs_chans (mark_resolved (map fst b) st3) y) with (rs_chans st3 y).
-    rewrite Hv3. rewrite (phase2_out _ _ _ _ H2 Hy). rewrite Hc1. now apply Hemp. }
+  split; [|split; [exact HA4|exact Hrn]].
+  intros y p Hp. destruct (in_dec N.eq_dec y (chan_keys g)) as [Hy|Hy]; [now apply He4|].
+  rewrite (Ho4 y Hy). change (rs_chans (mark_resolved (map fst b) st3) y) with (rs_chans st3 y).
+  rewrite Hv3. rewrite (phase2_out _ _ _ _ H2 Hy). rewrite Hc1. now apply Hemp.
+Qed.
+
+Lemma superstep_pregel : forall b st o,
+  pregel_inv st -> superstep g b st = Ok o ->
+  match o with
+  | Running st' => pregel_inv st'
+  | Done out dropped st' => all_empty st' /\ Acc g (out :: map snd dropped) st'
+  end.
+Proof.
+  intros b st o Hinv H. unfold superstep in H. bind_ok H r4 H4. destruct r4 as [ready st4].
+  destruct (calc_next_pregel _ _ _ _ Hinv H4) as (Hemp4 & HA4 & Hrn).
   destruct (nlist_get kEND ready) as [out|] eqn:Ee.
   - inversion H; subst o; clear H. split; [exact Hemp4|].
     eapply Acc_perm; [|exact HA4].
@@ -1734,12 +1927,12 @@ Lemma nodup_by_compute : forall l, nodup_keys l = true -> NoDup l.
 Proof. exact nodup_keys_NoDup. Qed.
 
 Lemma ex_dag_ok :
-  g_dag ex_dag = true /\ NoDup (all_keys ex_dag) /\ ~ In kEND (all_keys ex_dag) /\ covered ex_dag = true /\
+  g_dag ex_dag = true /\ NoDup (all_keys ex_dag) /\ ~ In kEND (all_keys ex_dag) /\ covered ex_dag = true /\ all_reach ex_dag = true /\
   exists out st, run ex_dag ex_dag_sched = Ok (Done out [] st) /\ all_finished ex_dag st = true /\
                  s_open (rs_store st) = [out] /\ s_log (rs_store st) = [3%Z; 2%Z] /\ l_merges (rs_log st) = [3%nat].
 Proof.
   split; [reflexivity|]. split; [apply nodup_by_compute; reflexivity|].
-  split; [intros H; apply memb_in in H; vm_compute in H; discriminate|]. split; [vm_compute; reflexivity|].
+  split; [intros H; apply memb_in in H; vm_compute in H; discriminate|]. split; [vm_compute; reflexivity|]. split; [vm_compute; reflexivity|].
   destruct (run ex_dag ex_dag_sched) as [[st|out dr st]| |] eqn:E; vm_compute in E; try discriminate.
   inversion E; subst. eexists. eexists. split; [reflexivity|]. vm_compute. repeat split.
 Qed.
@@ -1803,4 +1996,146 @@ Proof.
   assert (Hn : NoDup (all_keys ex_pregel_bad)) by (apply nodup_by_compute; reflexivity).
   assert (He : ~ In kEND (all_keys ex_pregel_bad)) by (intros Hin; apply memb_in in Hin; vm_compute in Hin; discriminate).
   exact (H ex_pregel_bad _ _ _ _ eq_refl Hn He E).
+Qed.
+
+(* ------------------------------------------------------------------ interrupt exits *)
+Lemma consume_all_succeeds : forall hs s rest,
+  Permutation (s_open s) (hs ++ rest) ->
+  exists s', consume_all hs s = Ok s' /\ Permutation (s_open s') rest.
+Proof.
+  induction hs as [|h hs IH]; simpl; intros s rest HP.
+  - exists s. split; [reflexivity|exact HP].
+  - assert (Hin : In h (s_open s)) by (eapply Permutation_in; [symmetry; exact HP|now left]).
+    unfold consume at 1. apply memb_in in Hin. rewrite Hin. simpl. apply memb_in in Hin.
+    apply IH. simpl. apply remove_one_perm_cons. exact HP.
+Qed.
+
+(* at every pass of the run loop the live handles are exactly the streams stored in the channels and
+   the inputs of the tasks about to start: the checkpoint conversion of an interrupt exit drains all of them *)
+Lemma interrupt_point_dag_l : forall g, g_dag g = true -> NoDup (all_keys g) -> ~ In kEND (all_keys g) ->
+  forall sched st b ready st4, covered g = true ->
+  run g sched = Ok (Running st) -> calc_next g b st = Ok (ready, st4) ->
+  exists s, checkpoint_drain g ready st4 = Ok s /\ s_open s = [].
+Proof.
+  intros g Hd Hn He sched st b ready st4 Hcov H Hc. unfold run in H. bind_ok H st0 H0.
+  pose proof (init_dag g Hd Hn He _ Hcov H0) as Hinv0.
+  pose proof (run_from_dag_running g Hd Hn He _ _ _ Hinv0 H) as Hinv.
+  destruct (calc_next_dag g Hd Hn He _ _ _ _ Hinv Hc) as (_ & _ & [_ HP] & _).
+  unfold checkpoint_drain. destruct (consume_all_succeeds (held g st4 ++ map snd ready) (rs_store st4) []) as (s & Hs & HPs).
+  - now rewrite app_nil_r.
+  - exists s. split; [exact Hs|]. now apply Permutation_nil.
+Qed.
+
+Lemma run_from_pregel_running : forall g, g_dag g = false -> NoDup (all_keys g) -> ~ In kEND (all_keys g) ->
+  forall sched st st', pregel_inv g st -> run_from g sched st = Ok (Running st') -> pregel_inv g st'.
+Proof.
+  intros g Hp Hn He. induction sched as [|b rest IH]; simpl; intros st st' Hinv H.
+  - inversion H; subst. exact Hinv.
+  - bind_ok H o Ho. pose proof (superstep_pregel g Hp Hn He _ _ _ Hinv Ho) as Hstep. destruct o as [st1|out1 dr1 st1].
+    + eapply IH; eauto.
+    + destruct rest; discriminate.
+Qed.
+
+Lemma interrupt_point_pregel_l : forall g, g_dag g = false -> NoDup (all_keys g) -> ~ In kEND (all_keys g) ->
+  forall sched st b ready st4,
+  run g sched = Ok (Running st) -> calc_next g b st = Ok (ready, st4) ->
+  exists s, checkpoint_drain g ready st4 = Ok s /\ s_open s = [].
+Proof.
+  intros g Hp Hn He sched st b ready st4 H Hc. unfold run in H. bind_ok H st0 H0.
+  unfold init_state in H0. rewrite Hp in H0. inversion H0; subst st0; clear H0.
+  assert (Hinv0 : pregel_inv g state0).
+  { split; [intros y p _; reflexivity|]. apply (state0_inv g). }
+  pose proof (run_from_pregel_running g Hp Hn He _ _ _ Hinv0 H) as Hinv.
+  destruct (calc_next_pregel g Hp Hn He _ _ _ _ Hinv Hc) as (_ & [_ HP] & _).
+  unfold checkpoint_drain. destruct (consume_all_succeeds (held g st4 ++ map snd ready) (rs_store st4) []) as (s & Hs & HPs).
+  - now rewrite app_nil_r.
+  - exists s. split; [exact Hs|]. now apply Permutation_nil.
+Qed.
+
+(* ------------------------------------------------------------------ the statements of Props/C19.v *)
+Lemma interrupt_exit_drains_l : forall g sched st b ready st4,
+  NoDup (all_keys g) -> ~ In kEND (all_keys g) -> (g_dag g = true -> covered g = true) ->
+  run g sched = Ok (Running st) -> calc_next g b st = Ok (ready, st4) ->
+  exists s, checkpoint_drain g ready st4 = Ok s /\ s_open s = [].
+Proof.
+  intros g sched st b ready st4 Hn He Hc. destruct (g_dag g) eqn:Hd.
+  - exact (interrupt_point_dag_l g Hd Hn He sched st b ready st4 (Hc eq_refl)).
+  - exact (interrupt_point_pregel_l g Hd Hn He sched st b ready st4).
+Qed.
+
+Lemma open_empty_at_end_dag_s : forall g sched out dropped st,
+  g_dag g = true -> NoDup (all_keys g) -> ~ In kEND (all_keys g) -> covered g = true ->
+  run g sched = Ok (Done out dropped st) ->
+  all_finished g st = true ->
+  s_open (rs_store st) = [out] /\ dropped = [].
+Proof. intros g sched out dropped st Hd Hn He. exact (open_empty_at_end_dag_l g Hd Hn He sched out dropped st). Qed.
+
+Lemma open_empty_at_end_dag_reach_s : forall g sched out dropped st,
+  g_dag g = true -> NoDup (all_keys g) -> ~ In kEND (all_keys g) -> covered g = true -> all_reach g = true ->
+  run g sched = Ok (Done out dropped st) ->
+  all_finished g st = true /\ s_open (rs_store st) = [out] /\ dropped = [].
+Proof. intros g sched out dropped st Hd Hn He. exact (open_empty_at_end_dag_reach_l g Hd Hn He sched out dropped st). Qed.
+
+Lemma open_empty_at_end_pregel_s : forall g sched out st,
+  g_dag g = false -> NoDup (all_keys g) -> ~ In kEND (all_keys g) ->
+  run g sched = Ok (Done out [] st) ->
+  s_open (rs_store st) = [out].
+Proof. intros g sched out st Hp Hn He. exact (open_empty_at_end_pregel_l g Hp Hn He sched out st). Qed.
+
+Lemma dag_once_s : forall g sched st,
+  g_dag g = true -> NoDup (all_keys g) -> ~ In kEND (all_keys g) -> covered g = true ->
+  run g sched = Ok (Running st) ->
+  NoDup (rs_pending st ++ rs_resolved st).
+Proof. intros g sched st Hd Hn He. exact (dag_once_l g Hd Hn He sched st). Qed.
+
+(* ------------------------------------------------------------------ every stream is released *)
+Lemma done_store_ok_l : forall g sched out dropped st,
+  NoDup (all_keys g) -> ~ In kEND (all_keys g) -> (g_dag g = true -> covered g = true) ->
+  run g sched = Ok (Done out dropped st) -> store_ok (rs_store st).
+Proof.
+  intros g sched out dropped st Hn He Hc H. destruct (g_dag g) eqn:Hd.
+  - unfold run in H. bind_ok H st0 H0. pose proof (init_dag g Hd Hn He _ (Hc eq_refl) H0) as Hinv.
+    destruct (run_from_dag g Hd Hn He _ _ _ _ _ Hinv H) as (_ & [Hok _] & _). exact Hok.
+  - unfold run in H. bind_ok H st0 H0. unfold init_state in H0. rewrite Hd in H0. inversion H0; subst st0; clear H0.
+    assert (Hinv : pregel_inv g state0) by (split; [intros y p _; reflexivity|apply (state0_inv g)]).
+    destruct (run_from_pregel g Hd Hn He _ _ _ _ _ Hinv H) as (_ & [Hok _]). exact Hok.
+Qed.
+
+(* when the run is Done (all-predecessor mode: every node ran or was skipped; any-predecessor mode:
+   nothing else scheduled with END) and the caller has drained or closed the output, every stream
+   that existed during the run — the input, every node's output, every copy, every merged stream,
+   every empty stream — is released *)
+Lemma every_stream_released_l : forall g sched out dropped st s',
+  NoDup (all_keys g) -> ~ In kEND (all_keys g) ->
+  (g_dag g = true -> covered g = true /\ all_finished g st = true) ->
+  (g_dag g = false -> dropped = []) ->
+  run g sched = Ok (Done out dropped st) ->
+  consume out (rs_store st) = Ok s' ->
+  s_open s' = [] /\ forall h, created (s_hist s') h -> released (s_hist s') h.
+Proof.
+  intros g sched out dropped st s' Hn He Hdagh Hpre H Hcons.
+  assert (Hok : store_ok (rs_store st)).
+  { eapply done_store_ok_l; eauto. intros Hd. apply (Hdagh Hd). }
+  assert (Hopen : s_open (rs_store st) = [out]).
+  { destruct (g_dag g) eqn:Hd.
+    - destruct (Hdagh eq_refl) as [Hcov Hfin]. apply (open_empty_at_end_dag_l g Hd Hn He sched out dropped st Hcov H Hfin).
+    - rewrite (Hpre eq_refl) in H. apply (open_empty_at_end_pregel_l g Hd Hn He sched out st H). }
+  pose proof (consume_ok _ _ _ Hok Hcons) as Hok'.
+  destruct (consume_perm _ _ _ Hcons) as (HP & _). rewrite Hopen in HP.
+  assert (Hempty : s_open s' = []).
+  { apply Permutation_length in HP. simpl in HP. destruct (s_open s'); [reflexivity|simpl in HP; lia]. }
+  split; [exact Hempty|]. now apply all_released.
+Qed.
+
+Lemma ex_released_ok :
+  exists out st s', run ex_dag ex_dag_sched = Ok (Done out [] st) /\ consume out (rs_store st) = Ok s' /\
+    s_open s' = [] /\
+    In (HCopy 1 [2; 3; 4]) (s_hist s') /\ In (HMerge [6; 8; 7] 9) (s_hist s') /\ In (HConsume 9) (s_hist s').
+Proof.
+  assert (E : exists out st, run ex_dag ex_dag_sched = Ok (Done out [] st) /\
+                exists s', consume out (rs_store st) = Ok s' /\ s_open s' = [] /\
+                  In (HCopy 1 [2; 3; 4]) (s_hist s') /\ In (HMerge [6; 8; 7] 9) (s_hist s') /\ In (HConsume 9) (s_hist s')).
+  { vm_compute. eexists. eexists. split; [reflexivity|]. eexists. split; [reflexivity|]. split; [reflexivity|].
+    split; [|split]; simpl; tauto. }
+  destruct E as (out & st & H1 & s' & H2). exists out, st, s'. tauto.
 Qed.
